@@ -725,10 +725,16 @@ def build_objective(init: dict) -> Any:
     return cls(build_instance_dc(init), bool(init["smm"]))
 
 
-def build_surrogate(spec: dict) -> Any:
+def build_surrogate(spec: dict, objective: Any = None) -> Any:
     """Surrogate equations: a linear map of (state, control) plus bias;
-    optionally NaN where max|s| exceeds ``nan_beyond``."""
+    optionally NaN where max|s| exceeds ``nan_beyond``. Kind "identity" is
+    the perfect surrogate: the real system's own equation function of the
+    objective it is handed to."""
     import numpy as np
+    if spec.get("kind") == "identity":
+        if objective is None:
+            raise ValueError("identity surrogate needs the objective")
+        return objective.instance.system.equations
     w = np.array(spec["W"], dtype=float)
     bias = np.array(spec["bias"], dtype=float)
     beyond = spec.get("nan_beyond")
@@ -800,7 +806,9 @@ def objective_x(draw: Any, init: dict) -> list[float]:
 def surrogate_specs(draw: Any, name: str, cdim: int = 1) -> dict:
     n = SYSTEM_DIM[name]
     kind = draw(st.sampled_from(["decay", "decay", "random", "zero",
-                                 "nan_beyond", "growth"]))
+                                 "nan_beyond", "growth", "identity"]))
+    if kind == "identity":
+        return {"W": [], "bias": [], "kind": kind}
     w = [[0.0] * (n + cdim) for _ in range(n)]
     if kind in ("decay", "nan_beyond"):
         for i in range(n):
